@@ -56,6 +56,14 @@ bool prop(Tape &t, Report &R) {
   int throwAt = t.choose(0, 12);
   static const char *cn[] = {"callback:none", "callback:observing", "callback:throwing"};
   s.labels.insert(cn[cbMode]);
+  // Unoriented cells: CellOrientation::UNKNOWN is accepted by setCellOrientation and treated like N by
+  // the geometry; "leaves every orientation unchanged" covers it too.  Decided at the end of the tape.
+  if (t.flip(1, 8)) {
+    bool any = false;
+    for (auto &c : s.cells)
+      if (!c.fixed && c.polarity == 0 && !refIsTurn((CellOrientation)c.orient) && t.flip(1, 2)) c.orient = (int)CellOrientation::UNKNOWN, any = true;
+    if (any) s.labels.insert("orientation:UNKNOWN-on-some-movable-cells");
+  }
   for (auto &l : s.labels) R.classify(l);
 
   bool threwAny = false, movedAny = false;
